@@ -334,7 +334,10 @@ func isDottedDecimal(h string) bool {
 	return true
 }
 
-func checkAccessors(u *url.Url, tokens string) {
+func checkAccessors(u *url.Url, tokens string) { checkAccessorsTbl(u, stdDefaultPorts, tokens) }
+
+// checkAccessorsTbl: the derived accessors against the special-scheme table of the parser that made the url
+func checkAccessorsTbl(u *url.Url, stdDefaultPorts map[string]string, tokens string) {
 	orc.Eval("C19")
 	fail := func(class, what string) { orc.Fail("C19", class, what+" in "+q(u.Href(false)), tokens) }
 	hn := u.Hostname()
